@@ -12,6 +12,7 @@ from ..ir import tag, show, short
 from ..paths import explore, Undecided
 from ..elem import ElemEngine, show_expr, has_top, top_reasons, canon_comm, Env
 from ..framework import site_of
+from ..cells import arm_cells, NotRecognised
 
 LEVEL = 'other'
 EXPLANATION = (
@@ -304,6 +305,14 @@ class PartEval:
         return v
 
 
+def _show_cells(F):
+    if F[0] == 'cell':
+        return '%s[%s][%s]' % (F[1], F[2], F[3])
+    if F[0] == 'op':
+        return '%s o %s' % (_show_cells(F[2]), _show_cells(F[3]))
+    return repr(F)
+
+
 def numpy_rule(cls):
     def same(a, b):
         return cls[a] == cls[b]
@@ -377,8 +386,48 @@ def run(prog, rep, tier, repo):
             else:
                 rep.viol('result-shape', key2, 'result has shape (%s, %s) but the element-wise maximum is (%s, %s)' % (
                     sh.r, sh.c, want[0], want[1]), site_of(f.body))
+                continue
+            # ---- D4 index pairing of the arm that runs under this partition
+            key3 = 'arm-cells:%s:{%s}' % (short(fk), pname)
+            try:
+                ac = arm_cells(prog, f, ev, o['blocks'], o['ret'])
+            except NotRecognised as e:
+                rep.undecided('arm-cells', key3, 'arm idiom not recognised: %s' % e, site_of(f.body))
+                continue
+            probs = []
+            F = ac['F']
+            if not (isinstance(F, tuple) and F[0] == 'op' and all(isinstance(x, tuple) and x[0] == 'cell' for x in F[2:4])
+                    and sorted(x[1] for x in F[2:4]) == ['m1', 'm2']):
+                probs.append('out[I][J] = %r is not one element of each operand combined once' % (F,))
+            else:
+                for cell in F[2:4]:
+                    nm, ri, ci = cell[1], cell[2], cell[3]
+                    rm, cm = ('r1', 'c1') if nm == 'm1' else ('r2', 'c2')
+                    okr = (ri == 'I' and cls[rm] == cls[want[0]]) or (ri == '0' and cls[rm] == cls['one'])
+                    okc = (ci == 'J' and cls[cm] == cls[want[1]]) or (ci == '0' and cls[cm] == cls['one'])
+                    if not okr:
+                        probs.append('%s is read at row %s but has %s rows where the result has %s' % (nm, ri, rm, want[0]))
+                    if not okc:
+                        probs.append('%s is read at column %s but has %s columns where the result has %s' % (nm, ci, cm, want[1]))
+            rws, cl = ac['rows'], ac['cols']
+            if not (rws == 'all' or (isinstance(rws, Dim) and cls[rws.sym] == cls[want[0]])):
+                probs.append('the row loop runs over %s, not over the %s rows of the result' % (rws, want[0]))
+            if isinstance(cl, tuple) and cl[0] == 'zip':
+                cm = 'c1' if ac and cl[1] == ('arg', 1, f.names.get(1)) else 'c2'
+                if cls[cm] != cls[want[1]]:
+                    probs.append('the row zip stops after %s columns, the result has %s' % (cm, want[1]))
+            elif not (cl in ('all', 'row-of-out') or (isinstance(cl, Dim) and cls[cl.sym] == cls[want[1]])):
+                probs.append('the column loop runs over %s, not over the %s columns of the result' % (cl, want[1]))
+            st_ = ac.get('stride')
+            if st_ is not None and not (isinstance(st_, Dim) and cls[st_.sym] == cls[want[1]]):
+                probs.append('flat write uses row stride %s but the result has %s columns' % (st_, want[1]))
+            if probs:
+                rep.viol('arm-cells', key3, '; '.join(probs), site_of(f.body))
+            else:
+                rep.ok('arm-cells', key3, '%s arm: out[I][J] = %s over %s x %s' % (ac['kind'], _show_cells(F), want[0], want[1]))
     rep.floor('classifier-total', 52 * 4, '52 partitions x 4 dispatchers')
-    rep.floor('result-shape', 4 * 15, 'compatible partitions x 4 dispatchers')
+    rep.floor('result-shape', 4 * 25, '25 compatible partitions x 4 dispatchers')
+    rep.floor('arm-cells', 4 * 25, '25 compatible partitions x 4 dispatchers')
 
     # ------------------------------------------------------------------ D3 operand order / operation in every arm
     eng = ElemEngine(prog)
